@@ -9,7 +9,8 @@ import Hgxv.Model.C14
   `shuffle <inplace> <order|-1> <size|-1> <pn> <pd> <preserve> <idx> <choices>`    -> CALL ` P ` pool weights k | `rej`
   `shuffleall <inplace> <pn> <pd> <sizes> <idxs natss> <choices natsss>`           -> CALL | `rej`
   `scalefree <n> <sizes> <counts ints> <scale keys> <corr 0/1> <target|none> <shuffles> <groups>` -> HG ` ret ` 0/1 | `rej`
-  `hoad <N> <time> <orders> <acts ratss> <coins rats> <flags> <samples natss>`         -> natss (t,nodes..) | `stuck`
+  `obj <all_orders 0/1> <inplace>`   -> `none` | `same` | `fresh` (object that carries the result of a call on the loaded one)
+  `hoad <N> <time> <orders> <acts ratss> <coins rats> <flags> <samples natss>`         -> natss (t,nodes..) | `raised` | `stuck`
  HG   = `<weighted> <sorted nodes> <hyperedges sorted> <weights> <metadata tokens>` (5 tokens)
  CALL = `A ` HG ` R ` (HG | `none`) -/
 open Wire C14
@@ -98,12 +99,17 @@ def step (h : HG) : List String → HG × String
             | some r => showHG r ++ " ret " ++ showBool (sfReturned (s.zip (c.map Int.toNat)) g)
             | none => "rej")
     | _, _, _, _, _, _ => (h, "bad-op")
+  | ["obj", allo, inpl] =>
+    -- the loaded hypergraph is the live object 1; which object carries the result of a call on it
+    let r := if allo == "1" then finishObjAll [(1, h)] 1 (inpl == "1") h else finishObj [(1, h)] 1 (inpl == "1") h
+    (h, match r.2 with | none => "none" | some i => if i = 1 then "same" else "fresh")
   | ["hoad", bigN, time, orders, acts, coins, flags, samples] =>
     match nat? bigN, nat? time, nats? orders, ratss? acts, rats? coins, nats? flags, natss? samples with
     | some bigN, some t, some o, some a, some c, some f, some s =>
       (h, match hoad bigN t (o.zip a) (mkDraws c f s) with
-          | some out => showNatss (sortLex (out.map (fun r => r.1 :: r.2)))
-          | none => "stuck")
+          | .done out => showNatss (sortLex (out.map (fun r => r.1 :: r.2)))
+          | .raised _ => "raised"
+          | .stuck => "stuck")
     | _, _, _, _, _, _, _ => (h, "bad-op")
   | _ => (h, "bad-op")
 
